@@ -22,6 +22,7 @@ import (
 	"encoding/json"
 	"fmt"
 	"io"
+	"os"
 	"sort"
 	"strings"
 	"testing"
@@ -63,6 +64,7 @@ type c10pat struct {
 	toks     []c10tok
 	plain    bool // only IUPAC letters (no [], !, #)
 	hasOblig bool
+	hasNeg   bool
 	hasV     bool
 }
 
@@ -75,6 +77,7 @@ func c10parse(src string) (*c10pat, error) {
 		if src[i] == '!' {
 			neg = true
 			p.plain = false
+			p.hasNeg = true
 			i++
 		}
 		if i >= len(src) {
@@ -736,12 +739,10 @@ func (c *c10ctx) check(cp *c10comp, begin, length int, doRC bool) {
 
 // ---------------------------------------------------------------- enumeration helpers
 
+// c10budgets: every budget of the quantifier (0..4), also when it exceeds the pattern length (a legal call: every
+// position then matches in mismatch mode unless a '#' position disagrees, every non-empty text matches with indels).
 func c10budgets(m int) []int {
-	var b []int
-	for e := 0; e <= 4 && e <= m; e++ {
-		b = append(b, e)
-	}
-	return b
+	return []int{0, 1, 2, 3, 4}
 }
 
 func c10mkseq(s []byte) (*obiseq.BioSequence, ApatSequence) {
@@ -892,6 +893,12 @@ func TestVerifC10(t *testing.T) {
 	t0 := time.Now() // progress log only, never an oracle
 	expired := false
 	k := 0
+	// development aid: VERIF_C10_ONLY=AG runs the named parts only (such a run is never reported as exhaustive)
+	only := os.Getenv("VERIF_C10_ONLY")
+	if only != "" {
+		r.Cap("VERIF_C10_ONLY=" + only + " (development filter: not the registered check)")
+	}
+	on := func(part string) bool { return only == "" || strings.Contains(only, part) }
 
 	// ======== part A: short patterns x all sequences ========
 	symbols := []string{"a", "c", "g", "t", "n", "r", "y", "[ac]"}
@@ -936,7 +943,7 @@ func TestVerifC10(t *testing.T) {
 	}
 	r.Bound("A_patterns", fmt.Sprintf("all of length 1..3 over %v (%d) + all of length 1..2 with '!' / '#' modifiers (%d)", symbols, len(plainPats), len(modPats)))
 	r.Bound("A_sequences", fmt.Sprintf("all over acgt of length 0..%d", maxL))
-	r.Bound("budgets", "0..min(4,pattern length); modes mismatch-only and indel ('#' patterns: mismatch-only, their indel semantics is not stated)")
+	r.Bound("budgets", "0..4 for every pattern, budgets larger than the pattern length included; modes mismatch-only and indel ('#' patterns: mismatch-only, their indel semantics is not stated)")
 
 	var entA []*c10entry
 	for _, src := range append(append([]string{}, plainPats...), modPats...) {
@@ -956,7 +963,7 @@ func TestVerifC10(t *testing.T) {
 		mine := r.Mine(k)
 		k++
 		r.State("seq:" + s)
-		if !mine || expired {
+		if !mine || expired || !on("A") {
 			return
 		}
 		seq := []byte(s)
@@ -986,7 +993,7 @@ func TestVerifC10(t *testing.T) {
 	verifkit.Strings("acgt", 0, 5, func(s string) {
 		mine := r.Mine(k)
 		k++
-		if !mine || expired {
+		if !mine || expired || !on("B") {
 			return
 		}
 		seq := []byte(s)
@@ -1024,7 +1031,7 @@ func TestVerifC10(t *testing.T) {
 		for _, w := range verifkit.AllStrings("ac", 0, 4) {
 			mine := r.Mine(k)
 			k++
-			if !mine || expired {
+			if !mine || expired || !on("C") {
 				continue
 			}
 			seq := []byte(u + strings.Repeat("g", 64) + w)
@@ -1103,7 +1110,7 @@ func TestVerifC10(t *testing.T) {
 				for _, c := range small {
 					mine := r.Mine(k)
 					k++
-					if mine && !expired {
+					if mine && !expired && on("E") {
 						runHist([]string{a, b, c})
 					}
 				}
@@ -1116,7 +1123,7 @@ func TestVerifC10(t *testing.T) {
 			for _, b := range mid {
 				mine := r.Mine(k)
 				k++
-				if mine && !expired {
+				if mine && !expired && on("E") {
 					runHist([]string{a, b})
 				}
 			}
@@ -1148,7 +1155,7 @@ func TestVerifC10(t *testing.T) {
 		verifkit.Strings("acgt", 0, 5, func(s string) {
 			mine := r.Mine(k)
 			k++
-			if !mine || expired {
+			if !mine || expired || !on("F") {
 				return
 			}
 			seq := []byte(s)
@@ -1207,7 +1214,7 @@ func TestVerifC10(t *testing.T) {
 		c10variants(m.instance(), kk, func(v []byte, edits int) {
 			mine := r.Mine(k)
 			k++
-			if !mine || expired {
+			if !mine || expired || !on("D") {
 				return
 			}
 			for _, lc := range ctxs {
